@@ -2,6 +2,7 @@ import SSVerif.Model.TextFsg
 import SSVerif.Model.TextDict
 import SSVerif.Model.TextJson
 import SSVerif.Model.TextSvspec
+import SSVerif.Model.DictLoad
 import Driver.Util
 /-! driver sub-command `c10`: runs the text-input models on the cases of `harness/h_c10.c`.
 Input lines: `- <fact> …` (facts printed by the harness: phone names, base dictionary, …) and
@@ -42,13 +43,73 @@ deriving Inhabited
 
 def showNats (l : List Nat) : String := ",".intercalate (l.map toString)
 
-def caseDict (s : Facts) (id : String) (b1 : List UInt8) (b2 : Option (List UInt8)) : List String :=
-  match dictInit s.phones s.sil (some b1.toArray) (b2.map (·.toArray)) with
-  | .error e => [s!"{id} rej {repr e}"]
-  | .ok d =>
-    [s!"{id} ok {d.size} {d.fillerStart} {(d.size : Int) - 1}",
-     s!"{id} words" ++ String.join (d.words.map fun e =>
-        s!" {toHex e.word}:{showNats e.pron}:{e.basewid}:{match e.alt with | some a => toString a | none => "-1"}")]
+def showEntries (ws : List DictWord) : String :=
+  String.join (ws.map fun e =>
+    s!" {toHex e.word}:{showNats e.pron}:{e.basewid}:{match e.alt with | some a => toString a | none => "-1"}")
+
+def showOptNat : Option Nat → String
+  | some a => toString a
+  | none => "-1"
+
+def loadErrName : SSVerif.DictLoad.LoadErr → String
+  | .tooMany => "tooMany" | .startInMain => "startInMain" | .finishInMain => "finishInMain"
+  | .silInMain => "silInMain" | .silNotFiller => "silNotFiller"
+
+/-- counts of the report entries: comment, blank, noPron, badPhone, duplicate, missing base, loaded -/
+def repCounts (rep : List SSVerif.DictLoad.LineRes) : List Nat :=
+  rep.foldl (fun acc r =>
+    let k := match r with
+      | .comment => 0 | .blank => 1 | .noPron => 2 | .badPhone => 3
+      | .refused _ false => 4 | .refused _ true => 5 | .loaded .. => 6
+    acc.modify k (· + 1)) (List.replicate 7 0)
+
+/-- the loaded lines of a report must be exactly the entries `[start, …)` of the final word table, in
+order, with their spelling and phones (the statement of `C10_dict_loaded_found`, re-evaluated) -/
+def repMatches (rep : List SSVerif.DictLoad.LineRes) (d : SSVerif.Dict.Dict) : Bool :=
+  rep.all fun r => match r with
+    | .loaded i w p => d.wordid w == some i &&
+        (match d.words[i]? with | some e => e.word == w && e.pron == p | none => false)
+    | _ => true
+
+/-- `dict` case: the C10 reader model (`TextIn.dictInit`, case-sensitive) and the bridge
+`DictLoad.loadDict` (C10 tokeniser feeding C16's `dict_add_word`; lines prefixed `L`).  With flag
+`nocase` (`dictcase` set) only the bridge exists; its result is printed under the plain keys too. -/
+def caseDict (s : Facts) (id : String) (b1 : List UInt8) (b2 : Option (List UInt8)) (nocase : Bool) : List String :=
+  let mdef : SSVerif.Dict.Mdef := { ciphones := s.phones, sil := s.sil }
+  let t := dictInit s.phones s.sil (some b1.toArray) (b2.map (·.toArray))
+  let tl : List String := match t with
+    | .error e => [s!"{id} rej {repr e}"]
+    | .ok d =>
+      [s!"{id} ok {d.size} {d.fillerStart} {(d.size : Int) - 1}", s!"{id} words" ++ showEntries d.words]
+  match SSVerif.DictLoad.loadDict mdef nocase (some b1.toArray) (b2.map (·.toArray)) with
+  | .error e =>
+    let sim := match t with | .error _ => true | .ok _ => false
+    (if nocase then [s!"{id} rej {loadErrName e}"] else tl ++ [s!"{id} Lsim {if sim then 1 else 0}"]) ++
+    [s!"{id} Lrej {loadErrName e}"]
+  | .ok r =>
+    let d := r.dict
+    let p := SSVerif.DictLoad.proj d
+    let hdr := s!"{d.words.length} {d.fillerStart} {d.fillerEnd}"
+    let sim := match t with
+      | .error _ => false
+      | .ok dT => dT.words == p.words && dT.fillerStart == p.fillerStart
+    (if nocase then [s!"{id} ok {hdr}", s!"{id} words" ++ showEntries p.words]
+     else tl ++ [s!"{id} Lsim {if sim then 1 else 0}"]) ++
+    [s!"{id} Lok {hdr}", s!"{id} Lwords" ++ showEntries p.words,
+     s!"{id} Lwids" ++ String.join (d.words.map fun e => " " ++ showOptNat (d.wordid e.word)),
+     s!"{id} Lspecial {showOptNat d.startwid} {showOptNat d.finishwid} {showOptNat d.silwid}",
+     s!"{id} Lrep" ++ String.join ((repCounts (r.mainRep ++ r.fillerRep)).map fun n => s!" {n}"),
+     s!"{id} Lfound {if repMatches (r.mainRep ++ r.fillerRep) d then 1 else 0}",
+     s!"{id} Lmaxwid {SSVerif.DictLoad.maxS3wid}"] ++
+    -- run-time additions after the load (`C16_wf_loaded_then_anything`): alternate of word 0, duplicate, alternate without base
+    (let w0 : List UInt8 := ((d.words[0]?).map (·.word)).getD []
+     let s1 := SSVerif.Dict.dictAddWord d (w0 ++ "(77)".toUTF8.data.toList) [mdef.sil]
+     let s2 := SSVerif.Dict.dictAddWord s1.1 w0 [mdef.sil]
+     let s3 := SSVerif.Dict.dictAddWord s2.1 "zz-nobase(2)".toUTF8.data.toList [mdef.sil]
+     let d' := s3.1
+     [s!"{id} Ladds {showOptNat s1.2} {showOptNat s2.2} {showOptNat s3.2}",
+      s!"{id} Lwords2" ++ showEntries (SSVerif.DictLoad.proj d').words,
+      s!"{id} Lwids2" ++ String.join (d'.words.map fun e => " " ++ showOptNat (d'.wordid e.word))])
 
 def showVal : CfgVal → String
   | .int v => s!"i:{v}"
@@ -141,14 +202,14 @@ def step (s : Facts) (ws : List String) : Facts × List String :=
   | "-" :: "veclen" :: [n] => ({ s with veclen := (parseNat n).getD 13 }, [])
   | "-" :: "defs" :: r => ({ s with defs := r.filterMap parseDef }, [])
   | "-" :: _ => (s, [])
-  | [id, kind, h1, h2, _flag] =>
+  | [id, kind, h1, h2, flag] =>
     match parseHex h1 with
     | none => (s, [s!"{id} bad-hex"])
     | some b1 =>
       let b2 : Option (List UInt8) := if h2 == "." then none else parseHex h2
       let out := match kind with
         | "fsg" => caseFsg id b1
-        | "dict" => caseDict s id b1 b2
+        | "dict" => caseDict s id b1 b2 (flag == "nocase")
         | "json" => caseJson s id b1
         | "setstr" => caseSetStr s id b1 (b2.getD [])
         | "align" => caseAlign s id b1
